@@ -928,6 +928,19 @@ pub fn c15(opts: &Opts) -> Report {
                     if t.real != Out::Ok(want.clone()) { viol(ctx, format!("C15: {} on {:?} = {} but the engine partitions to {:?}", t.text, xin, t.real.show(), want), vec![("template", t.text.clone()), ("input", xin.into()), ("observed", t.real.show()), ("expected", want), ("theorem", "C15_filter_partition".into())]); return; }
                 }
             }
+            // unique and sort commute (C15_unique_and_sort_commute), and sorting a reversed list changes nothing
+            // (C15_sort_after_reverse): two routes through the public API each
+            if i % 5 == 1 {
+                let routes = [("{split:,:..|sort|unique}", "{split:,:..|unique|sort}", "C15_unique_and_sort_commute"), ("{split:,:..|reverse|sort}", "{split:,:..|sort}", "C15_sort_after_reverse")];
+                for (a, b, thm) in routes {
+                    let (ra, rb) = (real::parse_format(a, &x), real::parse_format(b, &x));
+                    ctx.rep.bump("two_route_list_laws");
+                    if ra != rb {
+                        viol(ctx, format!("C15: {a} and {b} differ on {:?}: {} vs {}", x, ra.show(), rb.show()), vec![("template", a.to_string()), ("template2", b.to_string()), ("input", x.clone()), ("observed", ra.show()), ("expected", rb.show()), ("theorem", thm.into())]);
+                        return;
+                    }
+                }
+            }
             // a random composition against the model
             let n = 1 + ctx.rng.below(4);
             let mut ops = vec![Op::Split(",".into(), Range::Range(None, None, false))];
